@@ -481,6 +481,11 @@ def group_reader(repo, cfg, methods=("_read_next", "read")):
     obls = reader_obligations(eng, configs=[cfg], methods=methods)
     return eng, obls, {}
 
+def group_segment_lemma(repo, cfg):
+    eng = mk_engine(repo); frame_obligations(eng, want=())
+    reader_obligations(eng, configs=[cfg], methods=())          # installs the call-site contract of _read_next (proved in the reader groups)
+    return eng, segment_lemma_obligations(eng, cfg), {}
+
 READER_FUNCS = [R + x for x in ("read", "_read_next", "_handle_flag_sequence", "_append_to_frame", "_start_frame", "_goto_hunt_mode")] + \
                [H + "_ReaderBuffer." + x for x in ("is_available", "pop", "extend", "trim_buffer_to_current_position", "trim_buffer_to_flag_or_end")]
 
